@@ -2,7 +2,7 @@
 //! `push_state` macro is applied to, with a different number, naming and typing of stacks than
 //! `PushState` and no input instructions. It lets the builder type-state and the generated
 //! `HasStack` accessors be observed on a struct other than `PushState` (one stack carries a
-//! `builder_name`). Not part of the crate otherwise.
+//! `builder_name` and `ignore_doctests`). Not part of the crate otherwise.
 use crate::push_vm::{program::PushProgram, stack::Stack};
 
 #[derive(Default, Debug, Clone, Eq, PartialEq)]
@@ -11,7 +11,8 @@ pub struct MiniState {
     #[stack(exec)]
     pub code: Stack<PushProgram>,
     // renamed in the builder: the generated methods are `with_omega_values` / `with_omega_max_size`
-    #[stack(builder_name = omega)]
+    // ... and it is left out of the generated documentation examples
+    #[stack(builder_name = omega, ignore_doctests)]
     pub zeta: Stack<String>,
     #[stack]
     pub alpha: Stack<char>,
